@@ -6,7 +6,7 @@ import re
 import string
 
 from .. import genparser
-from ..engine import AnalysisError, PropertySpec, norm
+from ..engine import AnalysisError, MechanismMissing, PropertySpec, norm
 from ..grammar import parse_grammar
 from ..pyutil import call_name, calls, const_str, is_name, literal, walk_local
 
@@ -65,7 +65,7 @@ def r24_1(ctx, rep):
                        "operand `{%s}` is printed next to an operator without parentheses: the text `a + b` substituted into "
                        "`{left} * {right}` changes the grouping of the expression" % f)
     if n < 4:
-        raise AnalysisError(R, "fewer than 4 operand placeholders found in the infix templates")
+        raise MechanismMissing(R, "fewer than 4 operand placeholders found in the infix templates")
 
 
 def _grammar_prefixes(ctx, R):
@@ -107,7 +107,7 @@ def r24_2(ctx, rep):
                     break
             chain_lits = lits
     if chain_lits is None:
-        raise AnalysisError(R, "prefix dispatch not found in SympyGenerator.exitClass")
+        raise MechanismMissing(R, "prefix dispatch not found in SympyGenerator.exitClass")
     allowed = _grammar_prefixes(ctx, R) | {"state"}
     # the test in front of the dispatch ("no classifying prefix -> variables"), evaluated for a symbol with one prefix
     top = None
